@@ -155,7 +155,9 @@ CHECKS["C12"] = {
             "last-use, eviction and re-query at refresh ticks, gauges); TLC checks all interleavings of small instances and refutes a "
             "forget-on-error variant. TLC-enumerated schedules (submissions, peeks, clock advances across refresh / TTL / idle "
             "boundaries, provider outcomes full / partial / empty / error / error+partial, batch limits 1 / 2 / 10) drive the real "
-            "CachedCloudProvider under virtual time; TLC validates the recorded traces against the monitor.",
+            "CachedCloudProvider under virtual time; TLC validates the recorded traces against the monitor. One further recorded run lets "
+            "several goroutines read the cache at the very tick at which the entries have become idle (not judged) and then holds the "
+            "final gauges and reads against the abstract cache.",
     "design_ref": "6/C12",
     "note": "clients read InfoSource promptly (the monitor dates an entry by its answer); whole-second times; how sources are grouped "
             "into provider calls is not constrained",
@@ -230,7 +232,7 @@ CHECKS["C17"] = {
             "deviations. TLC-generated aggregate states x configurations go through the real aggregator and every real backend variant "
             "(17); strict protocol parsers (InfluxDB line protocol, Graphite plaintext / tagged, Datadog and New Relic JSON, OTLP protobuf, "
             "CloudWatch inputs, stdout; the relay: gostatsd's own parser) turn the captured payloads back into records, and TLC judges "
-            "every flush of the trace.",
+            "every flush of the trace; part of the cases are flushed as the maps of six aggregators handed to the backend at the same time.",
     "design_ref": "6/C17",
     "note": "values are compared to 1e-6 absolute (text formats print six decimals); series that a variant's documented naming cannot tell "
             "apart (graphite legacy / basic drop tags and host, relay with tags disabled) are left out of the comparison; four recorded "
